@@ -5,6 +5,7 @@ Hypothesis draw: cases shrink and replay, and a run is a pure function of the se
 """
 from __future__ import annotations
 
+from fractions import Fraction
 from typing import Any, Sequence
 
 from hypothesis import strategies as st
@@ -25,7 +26,11 @@ class Draw:
             return True
         if p <= 0:
             return False
-        return self._d.draw(st.integers(0, 999)) >= int(round((1 - p) * 1000))
+        fr = Fraction(p).limit_denominator(20)
+        if fr.numerator == 0:
+            fr = Fraction(1, 20)
+        # small denominators keep the choice -> value mapping nearly one-to-one (fewer duplicate cases)
+        return self._d.draw(st.integers(0, fr.denominator - 1)) >= fr.denominator - fr.numerator
 
     def choice(self, seq: Sequence[Any]) -> Any:
         if not seq:
